@@ -68,6 +68,10 @@ NON_MOVING_PREFIXES = (
     "<usize", "core::panicking::", "core::fmt::", "core::mem::manually_drop::ManuallyDrop", "<core::mem::manually_drop::ManuallyDrop",
     "<&A as core::cmp::PartialEq", "core::ops::range::", "<core::ops::range::", "core::iter::", "core::convert::", "<core::ptr::non_null::NonNull",
     "core::hash::", "core::clone::Clone::clone", "core::ops::function::",
+    # pointer/reference re-typing: no element is read, written or moved
+    "core::ptr::from_ref", "core::ptr::from_mut", "<*mut T>::cast", "<*const T>::cast", "<*mut T>::cast_const", "<*const T>::cast_mut",
+    "core::ptr::slice_from_raw_parts", "core::ptr::null", "<*mut T>::is_null", "<*const T>::is_null", "<[T; N]>::as_mut_slice", "<[T; N]>::as_slice",
+    "<[T; N]>::as_mut_ptr", "<[T; N]>::as_ptr", "<[T]>::as_mut_ptr_range", "<[T]>::as_ptr_range", "core::ptr::addr_of",
 )
 
 
